@@ -171,7 +171,8 @@ Fixpoint run (eps0 : Q) (b : bundle) (ops : list op) : option bundle :=
 Definition econv (tol : Q) (b : bundle) : bool := Qle_bool (smeared_e (bcuts b) (balpha b)) tol.
 Definition sconv (tol : Q) (b : bundle) : bool :=
   let s := smeared_s (bn b) (bcuts b) (balpha b) in Qle_bool (norm2 s) (tol * tol).
-Definition cs_converged (tol : Q) (b : bundle) : bool := src_c03_cs_converged (econv tol b) (sconv tol b).
+Definition cs_converged (tol : Q) (b : bundle) : bool :=
+  src_c03_cs_converged (src_c03_cs_econv (econv tol b)) (src_c03_cs_sconv (sconv tol b)).
 
 (* bundle_t::proximal(miu) = m_x - smeared_s() / miu, delta(miu) = smeared_e + |smeared_s|^2 / (2 miu) *)
 Definition proximal (miu : Q) (b : bundle) : vec :=
